@@ -2,6 +2,7 @@ package main
 
 import (
 	"math/rand"
+	"sort"
 
 	env "verifharness/ipamenv"
 )
@@ -28,6 +29,50 @@ var (
 	nodesOneSubnet  = map[string]string{"n1": "s1", "n2": "s1"}
 )
 
+// randomTopology draws a valid pool topology (C06's quantifier): two to four pools with pairwise disjoint IP ranges, most
+// sharing the pod subnet 10.0.0.0/24, possibly one in a second pod subnet; node subnets are /24s (s1..s3) or the
+// single-host s6, pairwise disjoint, and may be listed by several pools; nodes sit in any of them, in a subnet no pool
+// lists (s4) or in none at all.
+func randomTopology(rng *rand.Rand) ([]env.Config, map[string]string) {
+	subs := []string{"s1", "s2", "s3", "s6"}
+	np := 2 + rng.Intn(3)
+	ips := []string{"ip1", "ip2", "ip3", "ip4", "ip5", "ip6"}
+	rng.Shuffle(len(ips), func(i, j int) { ips[i], ips[j] = ips[j], ips[i] })
+	var cfg env.Config
+	for k := 1; k <= np; k++ {
+		p := env.PoolConf{ID: "p" + string(rune('0'+k))}
+		for _, s := range subs {
+			if rng.Intn(3) == 0 {
+				p.Subnets = append(p.Subnets, s)
+			}
+		}
+		if len(p.Subnets) == 0 {
+			p.Subnets = []string{subs[rng.Intn(len(subs))]}
+		}
+		if k == np && rng.Intn(3) == 0 {
+			p.Net = 1
+			p.IPs = []string{"ip101", "ip102"}[:1+rng.Intn(2)]
+		} else {
+			n := 1 + rng.Intn(2)
+			if n > len(ips) {
+				n = len(ips)
+			}
+			p.IPs, ips = append([]string{}, ips[:n]...), ips[n:]
+			sort.Strings(p.IPs)
+		}
+		cfg = append(cfg, p)
+	}
+	nodes := map[string]string{}
+	places := []string{"s1", "s2", "s3", "s4", ""}
+	for j := 1; j <= 3+rng.Intn(2); j++ {
+		nodes["n"+string(rune('0'+j))] = places[rng.Intn(len(places))]
+	}
+	if rng.Intn(2) == 0 {
+		nodes["n5"] = "s6"
+	}
+	return []env.Config{cfg}, nodes
+}
+
 func feat(names ...string) map[string]bool {
 	m := map[string]bool{}
 	for _, n := range names {
@@ -40,7 +85,7 @@ func pol(rng *rand.Rand, choices ...int) int { return choices[rng.Intn(len(choic
 
 // pickScenario draws one scenario of the given family ("" = any family).
 func pickScenario(rng *rand.Rand, focus string) scenario {
-	fams := []string{"c01", "c02", "c03", "c04", "c07", "c10", "c05", "c09", "c08"}
+	fams := []string{"c01", "c02", "c03", "c04", "c07", "c10", "c05", "c09", "c08", "c06"}
 	if focus == "" {
 		focus = fams[rng.Intn(len(fams))]
 	}
@@ -124,6 +169,13 @@ func pickScenario(rng *rand.Rand, focus string) scenario {
 		sc.Sts["s"], sc.Sts["m"] = 1, 2
 		sc.MaxInc, sc.Faults = 3, 2
 		sc.Feat = feat("resync")
+		if rng.Intn(2) == 0 { // template change: later incarnations ask for more ranges, some already owned
+			alt := [][][]string{{{"ip2"}, {"ip1"}, {"ip4"}}, {{"ip2"}, {"ip4"}, {"ip1"}}, {{"ip1"}, {"ip2"}, {"ip4"}}}[rng.Intn(3)]
+			sc.AltRanges = map[string][][]string{"m-0": alt}
+			sc.Specs = []env.PodSpec{{Name: "m-0", Kind: "sts", App: "m", Policy: pol(rng, 1, 2), Ranges: [][]string{{"ip1"}, {"ip4"}}}, sts("s-0", 0)}
+			sc.Faults = 1
+			sc.Feat["cycle"] = true
+		}
 	case "c09": // reload while operations run; admin reservations with late events
 		sc.Cfgs, sc.NodeSub = cfgTwoPools, nodesTwoSubnets
 		sc.Specs = []env.PodSpec{sts("s-0", pol(rng, 0, 1)), dp("d-a", "d", pol(rng, 0, 1), ""), sts("s-1", 0)}
@@ -131,6 +183,49 @@ func pickScenario(rng *rand.Rand, focus string) scenario {
 		sc.Admin = 2
 		sc.MaxOps = 3
 		sc.Feat = feat("reload", "admin", "resync")
+	case "c06": // random valid topology; scheduler cycles (filter, then bind on an offered node) with nothing in between
+		sc.Cfgs, sc.NodeSub = randomTopology(rng)
+		free := allIPs(sc.Cfgs)
+		pickIPs := func(n int) []string {
+			var out []string
+			for ; n > 0 && len(free) > 0; n-- {
+				i := rng.Intn(len(free))
+				out = append(out, free[i])
+				free = append(free[:i], free[i+1:]...)
+			}
+			sort.Slice(out, func(a, b int) bool { return env.IPAddr(out[a]).String() < env.IPAddr(out[b]).String() })
+			return out
+		}
+		sc.Specs = []env.PodSpec{sts("s-0", pol(rng, 0, 1, 2)), sts("s-1", 0), dp("d-a", "d", pol(rng, 0, 1, 2), ""), dp("d-b", "d", 0, "")}
+		if rng.Intn(2) == 0 { // pairwise disjoint requested ranges
+			sc.Specs = append(sc.Specs, env.PodSpec{Name: "m-0", Kind: "sts", App: "m", Policy: pol(rng, 0, 1), Ranges: [][]string{pickIPs(1 + rng.Intn(2)), pickIPs(1 + rng.Intn(2))}})
+			sc.Sts["m"] = 1
+		}
+		if rng.Intn(3) == 0 {
+			sc.Specs = append(sc.Specs, env.PodSpec{Name: "b-0", Kind: "bare", Policy: 0})
+		}
+		sc.Sts["s"], sc.Dp["d"] = 2, 2
+		sc.MaxInc, sc.MaxOps, sc.Faults = 3, 1+rng.Intn(2), 0
+		sc.Feat = feat("cycle", "kubelet")
+		if rng.Intn(3) == 0 {
+			sc.Feat["resync"] = true
+		}
+		sc.WStep, sc.WEnv, sc.WStart = 30, 35, 35
+		switch rng.Intn(4) {
+		case 0: // a process restart re-attaches the stored IPs to their pools
+			sc.Feat["crash"], sc.Crashes = true, 1
+		case 1: // partially allocated multi-range pod: the release API frees one of the reserved IPs of a deleted pod
+			sc.Cfgs = []env.Config{{{ID: "p1", Subnets: []string{"s1"}, IPs: []string{"ip1", "ip2"}}, {ID: "p2", Subnets: []string{"s2"}, IPs: []string{"ip3", "ip4"}},
+				{ID: "p3", Subnets: []string{"s1", "s2"}, IPs: []string{"ip5", "ip6"}}}}
+			sc.NodeSub = map[string]string{"n1": "s1", "n2": "s2", "n3": "s1", "n4": ""}
+			v := rng.Intn(4)
+			rr := [][][]string{{{"ip1"}}, {{"ip3"}}, {{"ip2"}, {"ip6"}}, {{"ip6"}, {"ip3", "ip4"}}}[v]
+			alt := [][][]string{{{"ip5", "ip6"}, {"ip1"}}, {{"ip5"}, {"ip3"}}, {{"ip5"}, {"ip2"}, {"ip6"}}, {{"ip1", "ip2"}, {"ip3", "ip4"}}}[v]
+			sc.Specs = []env.PodSpec{{Name: "m-0", Kind: "sts", App: "m", Policy: pol(rng, 1, 2), Ranges: rr}, sts("s-0", pol(rng, 0, 1)), dp("d-a", "d", 0, "")}
+			sc.AltRanges = map[string][][]string{"m-0": alt}
+			sc.Sts["m"] = 1
+			sc.Feat["apirelease"] = true
+		}
 	default:
 		panic("unknown focus " + focus)
 	}
